@@ -479,3 +479,21 @@ ROUND10 = {
 for _k, _v in ROUND10.items():
     if _k in CLAIMS:
         CLAIMS[_k]['text'] += '  Round 10: ' + _v
+
+ROUND11 = {
+    'C01': 'Face::Face reads no further into the caller\'s gr_face_ops than its size says (shared with C16); NameTable::setPlatformEncoding interpreted: the record range getName walks is inside the array.',
+    'C02': 'the Glat iterator end test (shared with C01); tracing build: input_slot offsets under their test; GlyphCache::glyph and Silf::runGraphite subscripts under their bounds.',
+    'C05': 'the pass type reaches the code loader of every rule action (readPass -> readRules -> Code).',
+    'C06': 'ATTACH of C04 shared (PUT_COPY, setAttr on every small forest).',
+    'C09': 'Font::Font interpreted for every handle x ops x callback combination: hinted exactly when handle, ops and the x callback are given (defect F27, repaired).',
+    'C10': 'what Face::Face leaves in m_ops is decided by interpreting it, not by the spelling of the copied size.',
+    'C11': 'every ++ of a UTF iterator variable follows a dereference of that same variable.',
+    'C15': 'which fonts are hinted is decided by interpreting Font::Font (defect F27, repaired).',
+    'C16': 'no cell of an owning pointer array is filled from another cell of the same array.',
+    'C17': 'ShiftCollider::resolve with a symbolic limit: a clamp of the result is not the cheapest axis\' position.',
+    'C18': 'readSill on tables with empty entries and shared offsets; labels transcoded by iterators dereferenced before they advance.',
+    'C19': 'the glyph cache and the pass array are indexed under their bounds on the paths justify takes.',
+}
+for _k, _v in ROUND11.items():
+    if _k in CLAIMS:
+        CLAIMS[_k]['text'] += '  Round 11: ' + _v
